@@ -184,6 +184,56 @@ Section Visit.
     - rewrite E. auto with c04.
   Qed.
 
+  (* ---- how much is visited: every name at most once, only names of objects ---- *)
+
+  Lemma name_eqb_true a : forall b, name_eqb a b = true -> a = b.
+  Proof.
+    induction a as [|x a IH]; intros [|y b] H; simpl in H; try discriminate; [reflexivity|].
+    apply andb_true_iff in H. destruct H as [H1 H2]. apply Nat.eqb_eq in H1. rewrite (IH b H2), H1. reflexivity.
+  Qed.
+
+  Lemma mem_name_in k l : In k l -> mem_name k l = true.
+  Proof.
+    induction l as [|x l IH]; intros H; [destruct H|]. simpl. destruct H as [->|H].
+    - rewrite name_eqb_refl. reflexivity.
+    - rewrite (IH H). apply orb_true_r.
+  Qed.
+
+  Definition tidy (vis : list name) : Prop := NoDup vis /\ incl vis univ.
+
+  Lemma go_children_tidy (rec : nat -> list name -> outcome (list name)) :
+    (forall c v v', rec c v = Ok v' -> tidy v -> tidy v') ->
+    forall cs v v', go_children rec cs v = Ok v' -> tidy v -> tidy v'.
+  Proof.
+    intros Hrec cs. induction cs as [|[b c] t IH]; intros v v' H Hv; simpl in H.
+    - inversion H; subst. exact Hv.
+    - destruct (rec c v) as [v1| | |] eqn:E; try discriminate.
+      apply (IH v1 v' H). apply (Hrec c v v1 E Hv).
+  Qed.
+
+  Lemma visit_tidy (rej desc : entry -> bool) : forall fuel id v v',
+    visit rej desc fuel s id v = Ok v' -> tidy v -> tidy v'.
+  Proof.
+    induction fuel as [|f IH]; intros id v v' H Hv; [discriminate|].
+    simpl in H. destruct (rej (obj s id)); [discriminate|].
+    destruct (mem_name (e_name (obj s id)) v) eqn:Em.
+    - inversion H; subst. exact Hv.
+    - apply (go_children_tidy _) with (cs := children s id) (v := e_name (obj s id) :: v) (v' := v') in H; [exact H| |].
+      + intros c w w' Hc Hw. destruct (desc (obj s c)); [apply (IH c w w' Hc Hw)|inversion Hc; subst; exact Hw].
+      + destruct Hv as [Hnd Hin]. split.
+        * constructor; [|exact Hnd]. intros Hi. apply mem_name_in in Hi. congruence.
+        * intros x [<-|Hx]; [apply obj_name_in_univ|apply Hin; exact Hx].
+  Qed.
+
+  Lemma visit_bounded rej desc fuel root vis :
+    visit rej desc fuel s root [] = Ok vis -> NoDup vis /\ length vis <= S (length (objs s)).
+  Proof.
+    intros H. destruct (visit_tidy rej desc fuel root [] vis H) as [Hnd Hin].
+    { split; [constructor|intros x []]. }
+    split; [exact Hnd|]. pose proof (NoDup_incl_length Hnd Hin) as L.
+    unfold univ in L. simpl in L. rewrite map_length in L. exact L.
+  Qed.
+
   Lemma assign_ids_total root : total (assign_ids s root).
   Proof. apply visit_total. Qed.
 
